@@ -341,6 +341,11 @@ def _batch_worker(args):
         if k:
             info.update(generated=0, distinct=0, wall=0.0)     # the run is counted once, with the first instance of the batch
         if g is not None:
+            acts = {}
+            for _, a, _d in g.get(k + 1, []):
+                kind = a.get("n", "?") + ("+draw" if a.get("pick") or a.get("coin") or a.get("draws") else "")
+                acts[kind] = acts.get(kind, 0) + 1
+            info["actions"] = acts
             info["replay"] = _replay_worker((b, inst, consts, g.get(k + 1, []), props, label, max_paths, sd + k))
         out.append(info)
     return out
@@ -423,6 +428,9 @@ def run_model(v, b, insts, consts, invariants, clauses, props, edges_for=lambda 
                 raise MachineryError("%s: invariant %s violated on %s but the real replay of the counterexample is clean: "
                                      "the model is wrong\n%s" % (b.module, what, label, json.dumps(acts)))
             continue
+        for kind, n in (info.get("actions") or {}).items():
+            tot.setdefault("model_transitions_by_action", {})
+            tot["model_transitions_by_action"][kind] = tot["model_transitions_by_action"].get(kind, 0) + n
         if info["replay"]:
             p, st, divs, dep, ne = info["replay"]
             tot["paths"] += p
